@@ -5,6 +5,7 @@ import (
 	"fmt"
 	"strings"
 	"time"
+	"verif/gensyn"
 
 	"grol.io/grol/object"
 	"verif/fw"
@@ -303,6 +304,25 @@ func (p c05) RunBatch(c *fw.Ctx) {
 		}
 		c.Begin(c05Case{Inputs: in})
 		p.compare(c, in, "")
+	}
+	// the shipped example and test programs, and mutations of them that still parse, as single inputs
+	for fi, src := range corpusPrograms() {
+		if fi%c.NBatches != c.Batch {
+			continue
+		}
+		variants := []string{src}
+		for m := 0; m < c.Pick(12, 300); m++ {
+			mu := gensyn.MutateBytes(c.Rng, src)
+			if r := parseSrc(mu, false); r.accepted() {
+				variants = append(variants, mu)
+			}
+		}
+		for _, v := range variants {
+			in := []string{v}
+			c.Begin(c05Case{Inputs: in})
+			p.compare(c, in, "")
+			c.Count("corpus_programs", 1)
+		}
 	}
 }
 
